@@ -287,8 +287,8 @@ static void run_copy(int content, int way, int fate, const std::vector<int>& ops
         // ... and statistics of its own, an address event and a malformed message: everything the target held must be gone afterwards
         // (the index is the source's or another one, by fate). The target's old content includes the very values the later operations add ("brand-new",
         // the records of qr[3]): whatever look-up structure the target had must not answer for values the assigned content doesn't hold
-        case W_COPY_ASSIGN: cp.reset(new CdnsBlock(bp_other, fate % 2)); prefill_target(*cp, P); cp->add_ip_address("to-be-overwritten"); cp->add_question_response_record(P.qr[4], P.stats[1]); cp->add_address_event_count(P.aec[2]); *cp = *src; break;
-        case W_MOVE_ASSIGN: cp.reset(new CdnsBlock(bp_other, (fate + 1) % 2)); prefill_target(*cp, P); cp->add_name_rdata("to-be-overwritten"); cp->add_malformed_message(P.mm[0], P.stats[2]); cp->add_address_event_count(P.aec[2]); *cp = std::move(*src); break;
+        case W_COPY_ASSIGN: cp.reset(new CdnsBlock(bp_other, fate % 2)); prefill_target(*cp, P); cp->add_ip_address("to-be-overwritten"); cp->add_question_response_record(P.qr[4], P.stats[1]); cp->add_address_event_count(P.aec[2]); { auto* got = &(*cp = *src); if (got != cp.get()) out.push_back({tag + "|assignment-yields-another-object", "the value of the assignment expression is not the assigned-to block"}); } break;
+        case W_MOVE_ASSIGN: cp.reset(new CdnsBlock(bp_other, (fate + 1) % 2)); prefill_target(*cp, P); cp->add_name_rdata("to-be-overwritten"); cp->add_malformed_message(P.mm[0], P.stats[2]); cp->add_address_event_count(P.aec[2]); { auto* got = &(*cp = std::move(*src)); if (got != cp.get()) out.push_back({tag + "|assignment-yields-another-object", "the value of the assignment expression is not the assigned-to block"}); } break;
         }
         if (fate == F_KEPT && (way == W_COPY_CTOR || way == W_COPY_ASSIGN)) { CdnsBlock& alias = *cp; *cp = alias; }   // self-assignment keeps the value
         if ((way == W_COPY_CTOR || way == W_COPY_ASSIGN) && ser(*src) != src_pre) out.push_back({tag + "|copying-changed-the-source", "the source block serialises differently after it was copied"});
@@ -314,7 +314,7 @@ static void run_copy(int content, int way, int fate, const std::vector<int>& ops
             case W_READ_COPY_CTOR: cp.reset(new CdnsBlockRead(*src)); break; case W_READ_MOVE_CTOR: cp.reset(new CdnsBlockRead(std::move(*src))); break;
             case W_READ_COPY_ASSIGN: case W_READ_MOVE_ASSIGN: { // the target already holds a block read from ANOTHER file (other parameters, same index 0)
                 std::string other = file_of(1, P, bp_other); std::istringstream io(other); CdnsReader ro(io); bool eo; cp.reset(new CdnsBlockRead(ro.read_block(eo))); cp->m_block_statistics = *P.stats[1];
-                if (way == W_READ_COPY_ASSIGN) *cp = *src; else *cp = std::move(*src); break; }
+                { auto* got = way == W_READ_COPY_ASSIGN ? &(*cp = *src) : &(*cp = std::move(*src)); if (got != cp.get()) out.push_back({tag + "|assignment-yields-another-object", "the value of the assignment expression is not the assigned-to block"}); } break; }
             }
             if (fate == F_KEPT && (way == W_READ_COPY_CTOR || way == W_READ_COPY_ASSIGN)) { CdnsBlockRead& alias = *cp; *cp = alias; }   // self-assignment keeps the value
             if ((way == W_READ_COPY_CTOR || way == W_READ_COPY_ASSIGN) && ser(*src) != src_pre) out.push_back({tag + "|copying-changed-the-source", "the source block serialises differently after it was copied"});
@@ -431,8 +431,21 @@ int main(int argc, char** argv) {
     if (a.mode == "direct") {
         auto run_seq = [&](const std::vector<int>& ops, Result& R) { std::string rep = "ops=" + ops_str(ops); set_note(rep); std::vector<BV> out; run_direct(ops, P, R, out); R.count("traces"); R.count("nontrivial");
             std::string names; for (int o : ops) names += std::string(DN[o]) + ","; for (auto& v : out) R.violation("direct|" + v.key, v.what + " after " + names, rep); };
+        // argument values outside the usual form: record times whose tick part is not reduced below the tick rate (an application that counts nanoseconds in a
+        // microsecond file). Whatever the library stores for them, the output must stay a schema-valid document (time offsets are unsigned integers); content is not judged.
+        auto run_times = [&](uint64_t idx, Result& R) {
+            static const uint64_t TK[] = {0, 999999, 1000000, 3000000, 1ULL << 32}; int path = idx % 2, k2 = (idx / 2) % 2, k1 = (idx / 4) % 2; uint64_t b = (idx / 8) % 10, a_ = (idx / 80) % 10;
+            Timestamp t1(5 + a_ / 5, TK[a_ % 5]), t2(5 + b / 5, TK[b % 5]); std::string rep = "times=" + std::to_string(idx); set_note(rep);
+            BlockParameters bp; std::vector<BlockParameters> bps = {bp}; FilePreamble fp(bps); std::vector<std::string> outs;
+            try { CdnsExporter e(fp, MemSink{&outs}, CborOutputCompression::NO_COMPRESSION); CdnsBlock blk(bp, 0);
+                  auto put = [&](int kind, const Timestamp& t) { if (kind == 0) { GenericQueryResponse q = P.qr[1]; q.ts = t; if (path) blk.add_question_response_record(q); else e.buffer_qr(q); } else { GenericMalformedMessage m = P.mm[0]; m.ts = t; if (path) blk.add_malformed_message(m); else e.buffer_mm(m); } };
+                  put(k1, t1); put(k2, t2); if (path) e.write_block(blk); else e.write_block(); }
+            catch (std::exception&) { R.count("traces"); R.outcome("times:refused"); return; }   // refusing such a value is fine
+            R.count("traces"); R.count("nontrivial");
+            if (outs.empty() || outs[0].empty()) { R.outcome("times:no-output"); return; }
+            try { ref::read_file(outs[0]); R.outcome("times:valid"); } catch (std::exception& x) { R.violation("direct|unreduced-ticks|invalid-output", std::string("records at ") + std::to_string(t1.m_secs) + "s+" + std::to_string(t1.m_ticks) + " and " + std::to_string(t2.m_secs) + "s+" + std::to_string(t2.m_ticks) + " ticks (" + (path ? "direct block" : "exporter") + "): the output is not a valid document: " + x.what(), rep); R.outcome("times:invalid"); } };
         if (!a.replay.empty()) { std::string s = slurp(a.replay); auto kv = kvparse(s); Pool rp(1, 60);
-            rp.run(1, [&](uint64_t, Result& R) { run_seq(parse_ops(kv["ops"]), R); }, [&](uint64_t, const std::string& d, Result& R) { R.violation("direct|" + crash_key(d), d.substr(0, 1500), s); }, total); return done(total.viol.empty() ? 0 : 1); }
+            rp.run(1, [&](uint64_t, Result& R) { if (kv.count("times")) run_times(strtoull(kv["times"].c_str(), nullptr, 10), R); else run_seq(parse_ops(kv["ops"]), R); }, [&](uint64_t, const std::string& d, Result& R) { R.violation("direct|" + crash_key(d), d.substr(0, 1500), s); }, total); return done(total.viol.empty() ? 0 : 1); }
         int D = T ? 5 : 4;
         std::vector<std::pair<int, int>> tasks; for (int i = 0; i < D_N; i++) for (int j = 0; j < D_N; j++) tasks.push_back({i, j});
         Pool pool(a.jobs, 300);
@@ -455,6 +468,7 @@ int main(int argc, char** argv) {
         }, [&](uint64_t, const std::string& d, Result& R) { R.violation("direct|" + crash_key(d), d.substr(0, 1500), pool.last_note); }, total);
         // single-operation histories
         for (int i = 0; i < D_N; i++) if (d_enabled(i, DState())) run_seq({i}, total);
+        { Pool tp(a.jobs, 120); tp.run(800 / 50, [&](uint64_t ti, Result& R) { for (uint64_t i = ti * 50; i < ti * 50 + 50; i++) run_times(i, R); }, [&](uint64_t, const std::string& d, Result& R) { R.violation("direct|unreduced-ticks|" + crash_key(d), d.substr(0, 1500), tp.last_note); }, total); }
         total.n["evaluations"] = total.n["traces"];
         return done(0);
     }
